@@ -49,18 +49,24 @@ func (repo *Repository) GetConfig(prefix string) (*Config, error) {
 	}
 
 	for len(out) > 0 {
-		keyEnd := bytes.IndexByte(out, '\n')
+		// Each entry is terminated by NUL. Within an entry, the key
+		// is separated from the value by LF (the value itself might
+		// contain further LFs).
+		entryEnd := bytes.IndexByte(out, 0)
+		if entryEnd == -1 {
+			return nil, errors.New("invalid output from 'git config'")
+		}
+		record := out[:entryEnd]
+		out = out[entryEnd+1:]
+		keyEnd := bytes.IndexByte(record, '\n')
 		if keyEnd == -1 {
-			return nil, errors.New("invalid output from 'git config'")
+			// This is a key that doesn't have any value at all (e.g.,
+			// `[section] key`). None of our settings can be
+			// specified that way, so skip it.
+			continue
 		}
-		key := string(out[:keyEnd])
-		out = out[keyEnd+1:]
-		valueEnd := bytes.IndexByte(out, 0)
-		if valueEnd == -1 {
-			return nil, errors.New("invalid output from 'git config'")
-		}
-		value := string(out[:valueEnd])
-		out = out[valueEnd+1:]
+		key := string(record[:keyEnd])
+		value := string(record[keyEnd+1:])
 
 		ok, rest := configKeyMatchesPrefix(key, prefix)
 		if !ok {
